@@ -60,19 +60,19 @@ def subdir(name):
 # --------------------------------------------------------------------------------------------------
 # object history (a dimension every model scenario carries)
 # --------------------------------------------------------------------------------------------------
-HISTORIES = [[], [], [], [], [], ["reload"], ["deepcopy"], ["prepredict"], ["refit"], ["prepredict", "reload"], ["get_distances"], ["get_distances_norm", "deepcopy"], ["stale_matrix"], ["stale_matrix", "prepredict"]]
+HISTORIES = [[], [], [], [], [], ["reload"], ["deepcopy"], ["prepredict"], ["refit"], ["prepredict", "reload"], ["get_distances"], ["get_distances_norm", "deepcopy"], ["stale_matrix"], ["stale_matrix", "prepredict"], ["save"], ["save", "get_distances"]]
 
 
 def derive_history(scn):
     """The properties speak about 'a fitted model', whatever its past: half of all scenarios use a fresh object, the others
-    one that was fitted twice, has already predicted, was asked for its distance matrix, carries a stale matrix with pre-computed distances switched off, was deep-copied, or went through
+    one that was fitted twice, has already predicted, was asked for its distance matrix, carries a stale matrix with pre-computed distances switched off, was saved (and kept in use), was deep-copied, or went through
     save -> load into a freshly constructed object.  The choice is a function of the scenario's content (no random stream is consumed; replay files carry it)."""
     if "history" not in scn:
         key = json.dumps([scn.get("kind"), scn.get("mode"), scn.get("metric"), scn.get("I_train"), scn.get("Y"), scn.get("Q"), scn.get("U")], sort_keys=True)
         h = int(hashlib.sha256(key.encode()).hexdigest()[:8], 16) % len(HISTORIES)
         hist = list(HISTORIES[h])
         if scn.get("mode") == "table":      # a lambda distance_fn cannot be pickled
-            hist = [x for x in hist if x != "reload"]
+            hist = [x for x in hist if x not in ("reload", "save")]
         scn["history"] = hist
     return scn["history"]
 
@@ -96,6 +96,12 @@ def apply_history_step(model, step):
         import numpy as np
         with np.errstate(all="ignore"):
             model.get_distances(step == "get_distances_norm")
+        return model
+    if step == "save":
+        # saving does not alter the original: the scenario continues with the object that was saved
+        path = os.path.join(subdir("reload"), "s-%d.pkl" % os.getpid())
+        model.save(path)
+        os.remove(path)
         return model
     if step == "deepcopy":
         return copy.deepcopy(model)
